@@ -129,10 +129,18 @@ RenderTable(g) ==
         Mark(cells[1].kind) \o Cell(cells[1])
           \o Concat([j \in 1..(Len(cells) - 1) |-> Sp \o DMark(cells[j + 1].kind) \o Cell(cells[j + 1])])
           \o <<"NL">>
+      \* a row of mixed kinds written inline: every run of cells of one kind starts a new line with
+      \* its marker, the following cells of the run are joined by the double marker ("! h" NL "| a || b")
+      RunCells(cells) ==
+        Concat([j \in 1..Len(cells) |->
+                  (IF j = 1 THEN Mark(cells[j].kind)
+                   ELSE IF cells[j].kind # cells[j - 1].kind THEN <<"NL">> \o Mark(cells[j].kind)
+                   ELSE Sp \o DMark(cells[j].kind)) \o Cell(cells[j])]) \o <<"NL">>
       Row(i) ==
         LET cells == g.rows[i].cells IN
-        RowMarker(i) \o (IF RowSep(st, i) = "inline" /\ UniformRow(cells) /\ cells # <<>> /\ ~HasTable(cells)
-                         THEN InlineCells(cells) ELSE LineCells(cells))
+        RowMarker(i) \o (IF RowSep(st, i) = "inline" /\ cells # <<>> /\ ~HasTable(cells)
+                         THEN (IF UniformRow(cells) THEN InlineCells(cells) ELSE RunCells(cells))
+                         ELSE LineCells(cells))
   IN open \o cap \o Concat([i \in 1..Len(g.rows) |-> Row(i)]) \o <<"|", "}">>
 
 (* ------------------------------------------------------------------------ *)
